@@ -2,6 +2,7 @@ package main
 
 import (
 	"fmt"
+	"math"
 	"strconv"
 	"strings"
 
@@ -37,89 +38,179 @@ func modFilter(m, r int) quadtree.FilterFunc {
 	return func(p orb.Pointer) bool { return p.(*qpt).id%m == r }
 }
 
+// c11Sentinel fills the caller-supplied result buffers ("dirty" buffers): it is never stored in a
+// tree, so any answer that mentions its id leaked stale buffer content.
+const c11SentinelID = 777777
+
+// dirtyBuf returns a non-nil buffer of the given length and capacity whose whole capacity is
+// filled with sentinel pointers.
+func dirtyBuf(blen, bcap int) []orb.Pointer {
+	if bcap < blen {
+		bcap = blen
+	}
+	s := &qpt{c11SentinelID, orb.Point{0, 0}}
+	buf := make([]orb.Pointer, bcap)
+	for i := range buf {
+		buf[i] = s
+	}
+	return buf[:blen]
+}
+
+func samePointBits(a, b orb.Point) bool {
+	return math.Float64bits(a[0]) == math.Float64bits(b[0]) && math.Float64bits(a[1]) == math.Float64bits(b[1])
+}
+
 // runHistory executes a history on a fresh tree; one result per op, then the tree dump.
+//
+//	a id pt            Add; the same id always denotes the SAME pointer object (added twice = a
+//	                   multiset with that pointer twice; re-added after removal = the same pointer again)
+//	an                 Add(nil)
+//	ri id pt           Remove(&{pt}, eq: same id)
+//	rp pt              Remove(&{pt}, nil)
+//	rm pt m r          Remove(&{pt}, eq: id%m==r)   (eq may accept many pointers at different distances)
+//	f pt               Find
+//	m pt m r           Matching(filter id%m==r)
+//	k pt k m r md      m==1: the wrapper KNearest, else KNearestMatching; k may be negative; nil buffer
+//	kB pt k m r md l c the same with a dirty non-nil buffer of length l and capacity c
+//	b lo hi m r        m==1: the wrapper InBound, else InBoundMatching; nil buffer
+//	bB lo hi m r l c   the same with a dirty non-nil buffer
+//
+// A panic of the library ends the history: the answers so far, then the token `panic`.
 func runHistory(r *tokReader) string {
 	bnd := orb.Bound{Min: r.pt(), Max: r.pt()}
 	n := r.int()
 	q := quadtree.New(bnd)
 	res := make([]string, 0, n+1)
-	idsOf := func() map[int]bool {
-		m := map[int]bool{}
+	ptrs := map[int]*qpt{}
+	countsOf := func() map[int]int {
+		m := map[int]int{}
 		for _, p := range q.VerifContents() {
-			m[p.(*qpt).id] = true
+			m[p.(*qpt).id]++
 		}
 		return m
 	}
+	remove := func(p orb.Point, eq quadtree.FilterFunc) func() string {
+		return func() string {
+			before := countsOf()
+			ok := q.Remove(&qpt{-1, p}, eq)
+			if !ok {
+				return "0"
+			}
+			after := countsOf()
+			gone := []string{}
+			for id, c := range before {
+				for i := after[id]; i < c; i++ {
+					gone = append(gone, strconv.Itoa(id))
+				}
+			}
+			extra := 0
+			for id, c := range after {
+				if c > before[id] {
+					extra++
+				}
+			}
+			if len(gone) != 1 || extra != 0 {
+				return "1 ?"
+			}
+			return "1 " + gone[0]
+		}
+	}
 	for i := 0; i < n; i++ {
-		out := guard(func() string {
-			switch op := r.next(); op {
-			case "a":
-				id := r.int()
-				p := r.pt()
-				if err := q.Add(&qpt{id, p}); err != nil {
+		// the arguments are read outside guard(): a malformed case is a harness bug, not a library panic
+		var call func() string
+		switch op := r.next(); op {
+		case "a":
+			id := r.int()
+			p := r.pt()
+			v := ptrs[id]
+			if v == nil {
+				v = &qpt{id, p}
+				ptrs[id] = v
+			} else if !samePointBits(v.p, p) {
+				return "badcase id-reused-with-another-point"
+			}
+			call = func() string {
+				if err := q.Add(v); err != nil {
 					return "0"
 				}
 				return "1"
-			case "ri", "rp":
-				var eq quadtree.FilterFunc
-				if op == "ri" {
-					id := r.int()
-					eq = func(p orb.Pointer) bool { return p.(*qpt).id == id }
-				}
-				p := r.pt()
-				before := idsOf()
-				ok := q.Remove(&qpt{-1, p}, eq)
-				if !ok {
+			}
+		case "an":
+			call = func() string {
+				if err := q.Add(nil); err != nil {
 					return "0"
 				}
-				after := idsOf()
-				gone := []string{}
-				for id := range before {
-					if !after[id] {
-						gone = append(gone, strconv.Itoa(id))
-					}
-				}
-				if len(gone) != 1 {
-					return "1 ?"
-				}
-				return "1 " + gone[0]
-			case "f":
-				v := q.Find(r.pt())
+				return "1"
+			}
+		case "ri":
+			id := r.int()
+			call = remove(r.pt(), func(p orb.Pointer) bool { return p.(*qpt).id == id })
+		case "rp":
+			call = remove(r.pt(), nil)
+		case "rm":
+			p := r.pt()
+			m, rr := r.int(), r.int()
+			call = remove(p, func(p orb.Pointer) bool { return p.(*qpt).id%m == rr })
+		case "f":
+			p := r.pt()
+			call = func() string {
+				v := q.Find(p)
 				if v == nil {
 					return "-"
 				}
 				return qid(v)
-			case "m":
-				p := r.pt()
-				m, rr := r.int(), r.int()
+			}
+		case "m":
+			p := r.pt()
+			m, rr := r.int(), r.int()
+			call = func() string {
 				v := q.Matching(p, modFilter(m, rr))
 				if v == nil {
 					return "-"
 				}
 				return qid(v)
-			case "k":
-				p := r.pt()
-				k, m, rr := r.int(), r.int(), r.int()
-				md := r.next()
-				var out []orb.Pointer
-				if md == "-" {
-					out = q.KNearestMatching(nil, p, k, modFilter(m, rr))
-				} else {
-					out = q.KNearestMatching(nil, p, k, modFilter(m, rr), pf(md))
-				}
-				return qids(out)
-			case "b":
-				b := orb.Bound{Min: r.pt(), Max: r.pt()}
-				m, rr := r.int(), r.int()
-				return qids(q.InBoundMatching(nil, b, modFilter(m, rr)))
-			default:
-				panic("bad op " + op)
 			}
-		})
-		if out == "panic" {
-			return "panic"
+		case "k", "kB":
+			p := r.pt()
+			k, m, rr := r.int(), r.int(), r.int()
+			md := r.next()
+			var buf []orb.Pointer
+			if op == "kB" {
+				bl, bc := r.int(), r.int()
+				buf = dirtyBuf(bl, bc)
+			}
+			var lim []float64
+			if md != "-" {
+				lim = []float64{pf(md)}
+			}
+			call = func() string {
+				if m == 1 {
+					return qids(q.KNearest(buf, p, k, lim...))
+				}
+				return qids(q.KNearestMatching(buf, p, k, modFilter(m, rr), lim...))
+			}
+		case "b", "bB":
+			b := orb.Bound{Min: r.pt(), Max: r.pt()}
+			m, rr := r.int(), r.int()
+			var buf []orb.Pointer
+			if op == "bB" {
+				bl, bc := r.int(), r.int()
+				buf = dirtyBuf(bl, bc)
+			}
+			call = func() string {
+				if m == 1 {
+					return qids(q.InBound(buf, b))
+				}
+				return qids(q.InBoundMatching(buf, b, modFilter(m, rr)))
+			}
+		default:
+			return "badcase op " + op
 		}
+		out := guard(call)
 		res = append(res, out)
+		if out == "panic" {
+			return strings.Join(res, " ; ")
+		}
 	}
 	res = append(res, "T "+q.VerifDump(qid))
 	return strings.Join(res, " ; ")
@@ -127,10 +218,13 @@ func runHistory(r *tokReader) string {
 
 func runC11(op string, in []string) string {
 	return guard(func() string {
-		if op != "hist" {
-			return "badop"
+		switch op {
+		case "hist":
+			return runHistory(&tokReader{t: in})
+		case "trunc": // marker emitted by the generator when an exhaustive enumeration was cut short
+			return "-"
 		}
-		return runHistory(&tokReader{t: in})
+		return "badop"
 	})
 }
 
@@ -140,6 +234,9 @@ type histGen struct {
 	pts    []orb.Point // alphabet
 	nextID int
 	live   []qpt
+	// used by opX only (C11): every pointer ever created, id -> point tokens
+	ever    map[int]string
+	everIDs []int
 }
 
 func (h *histGen) pt() orb.Point {
@@ -152,6 +249,7 @@ func (h *histGen) pt() orb.Point {
 
 func fpt(p orb.Point) string { return fb(p[0]) + " " + fb(p[1]) }
 
+// op is the basic vocabulary (shared with C19, whose runner understands exactly these ops).
 func (h *histGen) op() string {
 	r := h.c.Rng
 	x := r.Intn(100)
@@ -206,12 +304,134 @@ func (h *histGen) op() string {
 	}
 }
 
+// bufSpec draws a dirty-buffer shape: empty with no capacity, too small, exactly fitting, roomy,
+// and a non-zero length (the library must reslice, not append after stale entries).
+func (h *histGen) bufSpec() string {
+	r := h.c.Rng
+	switch r.Intn(5) {
+	case 0:
+		return "0 0"
+	case 1:
+		return "0 1"
+	case 2:
+		return fmt.Sprintf("0 %d", 2+r.Intn(4))
+	case 3:
+		return fmt.Sprintf("%d %d", 1+r.Intn(3), 4+r.Intn(60))
+	default:
+		return "3 3"
+	}
+}
+
+// opX is C11's full vocabulary: the basic ops plus the wrappers' degenerate arguments, repeated
+// pointers, Remove with a many-pointer eq, Add(nil), dirty buffers and inverted boxes.
+func (h *histGen) opX() string {
+	r := h.c.Rng
+	if h.ever == nil {
+		h.ever = map[int]string{}
+	}
+	x := r.Intn(100)
+	switch {
+	case x < 7 && len(h.everIDs) > 0: // the same pointer again: still stored (twice in the multiset) or removed earlier
+		id := h.everIDs[r.Intn(len(h.everIDs))]
+		return fmt.Sprintf("a %d %s", id, h.ever[id])
+	case x < 16: // Remove with an eq that accepts a whole residue class (m = 1: every pointer), from any point
+		m := 1 + r.Intn(3)
+		return fmt.Sprintf("rm %s %d %d", fpt(h.pt()), m, r.Intn(m))
+	case x < 18:
+		return "an"
+	}
+	o := h.op()
+	f := strings.Fields(o)
+	switch f[0] {
+	case "a":
+		id := pi(f[1])
+		if _, ok := h.ever[id]; !ok {
+			h.ever[id] = f[2] + " " + f[3]
+			h.everIDs = append(h.everIDs, id)
+		}
+	case "k":
+		// f: k x y k m r md
+		if r.Intn(8) == 0 {
+			f[3] = []string{"-1", "-1", "-7", "-9223372036854775808"}[r.Intn(4)]
+		}
+		if r.Intn(4) == 0 { // other limits: negative (the code squares it), zero, -0, non-dyadic
+			switch r.Intn(6) {
+			case 0, 1:
+				f[6] = fb(-float64(1+r.Intn(11)) / 2)
+			case 2:
+				f[6] = fb(0)
+			case 3:
+				f[6] = fb(math.Copysign(0, -1))
+			case 4:
+				f[6] = fb(r.Float64() * 9)
+			default:
+				f[6] = fb(-r.Float64() * 9)
+			}
+		}
+		if r.Intn(2) == 0 {
+			f[0] = "kB"
+			f = append(f, h.bufSpec())
+		}
+		o = strings.Join(f, " ")
+	case "b":
+		// f: b x0 y0 x1 y1 m r
+		if r.Intn(6) == 0 { // inverted in one or both axes (an empty box)
+			if r.Intn(2) == 0 {
+				f[1], f[3] = f[3], f[1]
+			}
+			if r.Intn(2) == 0 {
+				f[2], f[4] = f[4], f[2]
+			}
+		}
+		if r.Intn(2) == 0 {
+			f[0] = "bB"
+			f = append(f, h.bufSpec())
+		}
+		o = strings.Join(f, " ")
+	}
+	return o
+}
+
+// c11Bound is a tree bound together with a point-alphabet builder for it.
+type c11Bound struct {
+	lo, hi orb.Point
+	kind   string
+}
+
+func (b c11Bound) tok() string { return fpt(b.lo) + " " + fpt(b.hi) }
+
+// coord draws a coordinate related to [lo,hi]: the ends, the midlines of the first three levels
+// (computed with the library's own (l+r)/2), a random interior value, or a value just outside.
+func c11Coord(r interface{ Intn(int) int; Float64() float64 }, lo, hi float64) float64 {
+	mid := (lo + hi) / 2
+	switch r.Intn(12) {
+	case 0:
+		return lo
+	case 1:
+		return hi
+	case 2, 3:
+		return mid
+	case 4:
+		return (lo + mid) / 2
+	case 5:
+		return (mid + hi) / 2
+	case 6:
+		return ((lo+mid)/2 + mid) / 2
+	case 7:
+		return lo - (hi-lo)/8 - 0.25
+	default:
+		return lo + r.Float64()*(hi-lo)
+	}
+}
+
 func genC11(c *Ctx) {
 	r := c.Rng
 	bound := "c024000000000000 c024000000000000 4024000000000000 4024000000000000" // [-10,10]^2
-	// exhaustive: all histories of length <= L over a small op alphabet
-	alpha := []string{}
+
+	// ---- exhaustive part -------------------------------------------------------------------
+	// (1) all histories of length <= L1 over the 20-op alphabet
 	pts := []orb.Point{{0, 0}, {10, 10}, {-10, 5}, {5, 5}, {2.5, -2.5}, {11, 0}}
+	alpha := []string{}
 	for i, p := range pts[:5] {
 		alpha = append(alpha, fmt.Sprintf("a %d %s", 100+i, fpt(p)))
 	}
@@ -221,68 +441,140 @@ func genC11(c *Ctx) {
 		"rp "+fpt(pts[0]), "ri 103 "+fpt(pts[3]), "rp "+fpt(pts[4]),
 		"f "+fpt(orb.Point{1, 1}), "m "+fpt(orb.Point{4, 4})+" 2 0",
 		"k "+fpt(orb.Point{0, 0})+" 2 1 0 -", "k "+fpt(orb.Point{5, 5})+" 3 1 0 "+fb(8), "k "+fpt(orb.Point{0, 0})+" 0 1 0 -",
-		"b "+fpt(orb.Point{0, 0})+" "+fpt(orb.Point{10, 10})+" 1 0")
-	L := 3
+		"b "+fpt(orb.Point{0, 0})+" "+fpt(orb.Point{10, 10})+" 1 0",
+		// Remove with an eq accepting every even id, from a point that is nobody's own
+		"rm "+fpt(orb.Point{1, 1})+" 2 0",
+		"an",
+		"k "+fpt(orb.Point{0, 0})+" -1 1 0 -", "kB "+fpt(orb.Point{0, 0})+" 2 2 0 "+fb(-8)+" 1 1")
+	// (2) all histories of length <= L2 over a reduced 9-op alphabet (three points: both root
+	// midlines, a midline of a child cell, a general one; the same pointer may be added repeatedly)
+	small := []string{
+		fmt.Sprintf("a 100 %s", fpt(orb.Point{0, 0})),
+		fmt.Sprintf("a 101 %s", fpt(orb.Point{5, 5})),
+		fmt.Sprintf("a 102 %s", fpt(orb.Point{2.5, -2.5})),
+		"rp " + fpt(orb.Point{0, 0}),
+		"ri 101 " + fpt(orb.Point{5, 5}),
+		"rm " + fpt(orb.Point{1, 1}) + " 1 0",
+		"f " + fpt(orb.Point{1, 1}),
+		"k " + fpt(orb.Point{0, 0}) + " 2 1 0 -",
+		"b " + fpt(orb.Point{0, 0}) + " " + fpt(orb.Point{10, 10}) + " 1 0",
+	}
+	L1, L2 := 3, 5
 	if c.Tier == "thorough" {
-		L = 4
+		L1, L2 = 4, 6
 	}
 	idx := 0
-	var rec func(prefix []string)
-	rec = func(prefix []string) {
-		if len(prefix) > 0 {
-			idx++
-			if c.Mine(idx) {
-				c.Case("hist", fmt.Sprintf("%s %d %s", bound, len(prefix), strings.Join(prefix, " ")))
-			}
-		}
-		if len(prefix) == L || c.Exhausted() {
-			return
-		}
-		for _, a := range alpha {
-			dup := false
-			if strings.HasPrefix(a, "a ") { // ids stand for pointer identity: never add the same one twice
-				for _, q := range prefix {
-					if q == a {
-						dup = true
-					}
+	enumerate := func(name string, alpha []string, L int) {
+		truncated := false
+		var rec func(prefix []string)
+		rec = func(prefix []string) {
+			if len(prefix) > 0 {
+				idx++
+				if c.Mine(idx) {
+					c.Case("hist", fmt.Sprintf("%s %d %s", bound, len(prefix), strings.Join(prefix, " ")))
 				}
 			}
-			if !dup {
+			if len(prefix) == L {
+				return
+			}
+			if c.Exhausted() {
+				truncated = true
+				return
+			}
+			for _, a := range alpha {
 				rec(append(prefix, a))
 			}
 		}
+		rec(nil)
+		if truncated { // never silent: the summary shows a `skip exhaustive-truncated …` tag
+			c.Case("trunc", fmt.Sprintf("%s %d %d %d", name, L, idx, c.Shard))
+		}
 	}
-	rec(nil)
-	// random histories
+	enumerate("full", alpha, L1)
+	enumerate("reduced", small, L2)
+
+	// ---- random histories ------------------------------------------------------------------
 	maxOps := 60
 	if c.Tier == "thorough" {
 		maxOps = 400
 	}
+	third := -1.0 / 3
 	for k := 0; k < c.Budget && !c.Exhausted(); k++ {
 		h := &histGen{c: c}
-		na := 2 + r.Intn(10)
-		for i := 0; i < na; i++ {
-			switch r.Intn(4) {
-			case 0: // on midlines of the root and deeper cells, and on the bound
-				h.pts = append(h.pts, orb.Point{[]float64{0, 5, -5, 2.5, 10, -10, 7.5}[r.Intn(7)], []float64{0, 5, -5, 2.5, 10, -10, -7.5}[r.Intn(7)]})
-			default:
-				h.pts = append(h.pts, orb.Point{float64(r.Intn(41)-20) / 2, float64(r.Intn(41)-20) / 2})
-			}
+		// the tree bound
+		b := c11Bound{orb.Point{-10, -10}, orb.Point{10, 10}, "std"}
+		switch x := r.Intn(100); {
+		case x < 52:
+		case x < 62:
+			b = c11Bound{orb.Point{-3, -7.5}, orb.Point{12, 9}, "std"}
+		case x < 74: // non-dyadic: every (l+r)/2 below the root rounds
+			b = c11Bound{orb.Point{0.1, third}, orb.Point{0.7, 2.9}, "odd"}
+		case x < 80:
+			lo := orb.Point{r.Float64()*10 - 12, r.Float64()*10 - 12}
+			b = c11Bound{lo, orb.Point{lo[0] + r.Float64()*20, lo[1] + r.Float64()*20}, "odd"}
+		case x < 85: // zero width
+			b = c11Bound{orb.Point{2, -5}, orb.Point{2, 5}, "odd"}
+		case x < 88: // zero height
+			b = c11Bound{orb.Point{-5, 0.3}, orb.Point{5, 0.3}, "odd"}
+		case x < 90: // a single point
+			b = c11Bound{orb.Point{1, 1}, orb.Point{1, 1}, "odd"}
+		case x < 92: // inverted: contains nothing
+			b = c11Bound{orb.Point{10, 10}, orb.Point{-10, -10}, "odd"}
+		case x < 96: // coordinates near 2^53: float distances round, the judge is exact
+			b = c11Bound{orb.Point{math.Ldexp(1, 52), -math.Ldexp(1, 30)}, orb.Point{3 * math.Ldexp(1, 52), math.Ldexp(1, 30)}, "big"}
+		default: // squared distances overflow float64 (outside the exact model: `skip dist-overflow`)
+			b = c11Bound{orb.Point{-1e300, -1e300}, orb.Point{1e300, 1e300}, "huge"}
 		}
-		if r.Intn(4) == 0 { // general-position floats
-			for i := range h.pts {
-				h.pts[i] = orb.Point{r.Float64()*24 - 12, r.Float64()*24 - 12}
+		na := 2 + r.Intn(10)
+		switch b.kind {
+		case "std":
+			for i := 0; i < na; i++ {
+				switch r.Intn(4) {
+				case 0: // on midlines of the root and deeper cells, and on the bound
+					h.pts = append(h.pts, orb.Point{[]float64{0, 5, -5, 2.5, 10, -10, 7.5}[r.Intn(7)], []float64{0, 5, -5, 2.5, 10, -10, -7.5}[r.Intn(7)]})
+				default:
+					h.pts = append(h.pts, orb.Point{float64(r.Intn(41)-20) / 2, float64(r.Intn(41)-20) / 2})
+				}
+			}
+			if r.Intn(4) == 0 { // general-position floats
+				for i := range h.pts {
+					h.pts[i] = orb.Point{r.Float64()*24 - 12, r.Float64()*24 - 12}
+				}
+			}
+		case "odd":
+			for i := 0; i < na+2; i++ {
+				h.pts = append(h.pts, orb.Point{c11Coord(r, b.lo[0], b.hi[0]), c11Coord(r, b.lo[1], b.hi[1])})
+			}
+		case "big":
+			for i := 0; i < na+2; i++ {
+				h.pts = append(h.pts, orb.Point{
+					math.Ldexp(1, 53) + float64(2*(r.Intn(9)-4)) + []float64{0, 0, math.Ldexp(1, 51), -math.Ldexp(1, 52)}[r.Intn(4)],
+					[]float64{0, 0, 1, 3, math.Ldexp(1, 27), -math.Ldexp(1, 27), math.Ldexp(1, 27) + 1}[r.Intn(7)]})
+			}
+			h.pts = append(h.pts, orb.Point{-3, 0}, orb.Point{math.Ldexp(1, 53), 1})
+		case "huge":
+			for i := 0; i < na+2; i++ {
+				h.pts = append(h.pts, orb.Point{
+					[]float64{1e200, -1e200, 1e160, 3, -2.5, 1e153, -1e154, 0}[r.Intn(8)],
+					[]float64{0, 0, 1e200, -1e160, 4, 1e154}[r.Intn(6)]})
 			}
 		}
 		n := 1 + r.Intn(maxOps)
 		ops := make([]string, n)
 		for i := range ops {
-			ops[i] = h.op()
+			ops[i] = h.opX()
 		}
-		b := bound
-		if r.Intn(5) == 0 {
-			b = fmt.Sprintf("%s %s %s %s", fb(-3), fb(-7.5), fb(12), fb(9))
+		// rare: the inputs of the recorded findings (a NaN point offered to Add; a k so large that
+		// make(maxHeap, 0, k+1) cannot be allocated)
+		switch r.Intn(600) {
+		case 0:
+			h.nextID++
+			p := h.pt()
+			p[r.Intn(2)] = math.NaN()
+			ops[r.Intn(n)] = fmt.Sprintf("a %d %s", 5000+h.nextID, fpt(p))
+		case 1:
+			ops[r.Intn(n)] = fmt.Sprintf("k %s %s 1 0 -", fpt(h.pt()), []string{"1125899906842624", "9223372036854775807"}[r.Intn(2)])
 		}
-		c.Case("hist", fmt.Sprintf("%s %d %s", b, n, strings.Join(ops, " ")))
+		c.Case("hist", fmt.Sprintf("%s %d %s", b.tok(), n, strings.Join(ops, " ")))
 	}
 }
